@@ -21,7 +21,7 @@ ASSUMPTIONS = ['virtual nodes use a fragment name that is not defined (V, W)']
 
 def budget(tier):
     if tier == 'thorough':
-        return dict(examples=1000, shards=16, procs=16)
+        return dict(examples=4000, shards=16, procs=16)
     return dict(examples=600, shards=4, procs=4)
 
 
